@@ -284,15 +284,15 @@ Proof.
 Qed.
 
 (* ---------------------------------------------------------------- quantifiers *)
-Lemma fv_prune vs b : incl (free_vars (EExists (prune vs b) b)) (free_vars (EExists vs b)).
+Lemma fv_prune G vs b : incl (free_vars (EExists (prune G vs b) b)) (free_vars (EExists vs b)).
 Proof.
   intros w. cbn [free_vars]. rewrite !in_fv_quant. intros [Hw Hn]. split; [exact Hw|].
   intros Hin. apply Hn. apply in_map_iff in Hin. destruct Hin as [p [<- Hp]].
-  apply in_map. unfold prune. apply filter_In. split; [exact Hp|]. apply memN_In. exact Hw.
+  apply in_map. unfold prune. apply filter_In. split; [exact Hp|]. apply orb_true_iff. left. apply memN_In. exact Hw.
 Qed.
 
-Lemma fv_walk_forall vs b : incl (free_vars (walk_forall vs b)) (free_vars (EForall vs b)).
-Proof. unfold walk_forall. rewrite fv_mkForall. apply (fv_prune vs b). Qed.
+Lemma fv_walk_forall G vs b : incl (free_vars (walk_forall G vs b)) (free_vars (EForall vs b)).
+Proof. unfold walk_forall. rewrite fv_mkForall. apply (fv_prune G vs b). Qed.
 
 Lemma fv_elim_step G vs body vs' body' :
   elim_step G vs body = Some (vs', body') ->
@@ -328,8 +328,8 @@ Lemma fv_walk_exists G rs vs b :
   incl (free_vars (walk_exists G rs vs b)) (free_vars (EExists vs b)).
 Proof.
   intros Hrs. unfold walk_exists.
-  destruct (elim_step G (prune vs b) b) as [p|] eqn:E.
-  - destruct (elim_loop G (length (prune vs b)) (prune vs b) b) as [vs1 b1] eqn:L.
+  destruct (elim_step G (prune G vs b) b) as [p|] eqn:E.
+  - destruct (elim_loop G (length (prune G vs b)) (prune G vs b) b) as [vs1 b1] eqn:L.
     apply (incl_tran (Hrs _)). rewrite fv_mkExists.
     apply (incl_tran (fv_elim_loop _ _ _ _ _ _ L)). apply fv_prune.
   - rewrite fv_mkExists. apply fv_prune.
@@ -362,7 +362,7 @@ Proof.
     + apply (incl_tran (fv_walk_implies _ _)). cbn [free_vars]. apply incl_app2; assumption.
     + apply (incl_tran (fv_walk_iff _ _)). cbn [free_vars]. apply incl_app2; assumption.
     + apply (incl_tran (fv_walk_exists _ _ _ _ Hrs)). cbn [free_vars]. apply incl_filter_mono. exact IHe.
-    + apply (incl_tran (fv_walk_forall _ _)). cbn [free_vars]. apply incl_filter_mono. exact IHe.
+    + apply (incl_tran (fv_walk_forall _ _ _)). cbn [free_vars]. apply incl_filter_mono. exact IHe.
     + rewrite fv_EPlus. apply (incl_tran (fv_walk_arith _ _)). apply fvl_map_incl; assumption.
     + apply (incl_tran (fv_walk_minus _ _)). cbn [free_vars]. apply incl_app2; assumption.
     + rewrite fv_ETimes. apply (incl_tran (fv_walk_arith _ _)). apply fvl_map_incl; assumption.
